@@ -33,10 +33,37 @@ package verifspec
 //@   assigns nothing
 //@   ensures result == purged(key(d))
 
-//@ extern build.finalizeRemovals
-//@   param file
-//@   assigns file.Decls, file.Imports, file.Comments
+// finalizeRemovals: afterwards no nil is left among the declarations and the imports; if no declaration had to be dropped
+// the function declarations are untouched (when some were, the list is Squeeze of the list with the dropped ones set to
+// nil, and Squeeze keeps every non-nil entry: its own contract).
+//@ func build.finalizeRemovals
+//@ property C12
+//@   requires file != nil
+//@   panics_only_if true
+//@   assigns file.Decls, file.Imports, file.Comments, heap(GenDecl.Specs), heap(ValueSpec.Names), heap(ValueSpec.Values)
 //@   ghost finalized = true
+//@   ensures finalized
+//@   ghost FC = false
+//@   loop 1 hint exit: ghost FC = fileChanged
+//@   loop 1 assigns elems(file.Decls), heap(GenDecl.Specs), heap(ValueSpec.Names), heap(ValueSpec.Values)
+//@   loop 1 invariant 0 <= $i1 && $i1 <= len(file.Decls) && len(file.Decls) == len(old(file.Decls))
+//@   loop 1 invariant !fileChanged ==> forall(k, 0, $i1, file.Decls[k] != nil)
+//@   loop 1 invariant forall(k, 0, len(file.Decls), typeis(old(file.Decls)[k], "*go/ast.FuncDecl") ==> file.Decls[k] == old(file.Decls)[k])
+//@   loop 1 invariant forall(k, $i1, len(file.Decls), file.Decls[k] == old(file.Decls)[k])
+//@   loop 2 assigns elems(file.Decls), heap(GenDecl.Specs), heap(ValueSpec.Names), heap(ValueSpec.Values)
+//@   loop 2 invariant 0 <= $i1 && $i1 < len(file.Decls) && len(file.Decls) == len(old(file.Decls)) && file.Decls[$i1] != nil
+//@   loop 2 invariant !fileChanged ==> forall(k, 0, $i1, file.Decls[k] != nil)
+//@   loop 2 invariant forall(k, 0, len(file.Decls), typeis(old(file.Decls)[k], "*go/ast.FuncDecl") ==> file.Decls[k] == old(file.Decls)[k])
+//@   loop 2 invariant forall(k, $i1, len(file.Decls), file.Decls[k] == old(file.Decls)[k])
+//@   loop 3 invariant 0 <= $i1 && $i1 < len(file.Decls) && len(file.Decls) == len(old(file.Decls)) && file.Decls[$i1] != nil
+//@   loop 3 invariant !fileChanged ==> forall(k, 0, $i1, file.Decls[k] != nil)
+//@   loop 3 invariant forall(k, 0, len(file.Decls), typeis(old(file.Decls)[k], "*go/ast.FuncDecl") ==> file.Decls[k] == old(file.Decls)[k])
+//@   loop 3 invariant forall(k, $i1, len(file.Decls), file.Decls[k] == old(file.Decls)[k])
+//@   ensures forall(k, 0, len(file.Decls), file.Decls[k] != nil)
+//@   ensures forall(k, 0, len(file.Imports), file.Imports[k] != nil)
+//@   ensures !FC ==> len(file.Decls) == len(old(file.Decls)) && forall(k, 0, len(file.Decls), typeis(old(file.Decls)[k], "*go/ast.FuncDecl") ==> file.Decls[k] == old(file.Decls)[k])
+//@ extern go/ast.Inspect
+//@   param node f
 //@ extern build.pruneImports
 //@   param file
 //@   assigns file.Decls, file.Imports, file.Comments
